@@ -225,3 +225,27 @@ CHECKS["C01"] = {
              "INDENT tokens / implicit dedent and comment placement other than the assignment trailing comment depend on the hand-written parser's control state on "
              "runtime token streams. The alphabet is symbolic (ASCII + literal non-ASCII + one representative per Unicode category)."),
 }
+
+CHECKS["C02"] = {
+    "technique": "static analysis: three-valued evaluation of token-type dispatch tables per TokenType member, def/use symmetry of AST fields between parser and emitter, path exploration over the parser CFG with a token-type-set abstraction (comment consumption), exhaustive small-model check that the lexer's decoder inverts the emitter's escape chain, sibling-agreement rules",
+    "text": ("Decides structural necessary conditions of content preservation: the token->text tables on the canonical path (holographic raw pattern, captured annotations, "
+             "multi-word rendering) render every non-whitespace token kind; every AST field the parser fills is read by the emitter function of that node kind; wherever "
+             "the current token is known to be a COMMENT the parser stores its text before moving on (six deliberate discard sites are recorded known findings); parse_value "
+             "has a branch for every member of VALUE_TOKENS; decode(encode(s)) == s for all strings up to length 5 over the escape alphabet, for chains written as .replace() "
+             "chains or table-driven loops; the block-children and section-children loops agree on resetting the line-indent tracker after a child; the lenient pre-pass "
+             "protects literal zones, strings and comments with a full lookup."),
+    "note": ("Equality of the parsed content with an independent statement of what was written is not decided: parentage by indentation on concrete layouts, duplicate-key "
+             "order and value equality need values. R02.6 is a sibling-agreement rule on the repository's own idiom (current_line_indent reset); a consistent redesign of both "
+             "loops is silent, a one-sided change fires."),
+}
+CHECKS["C05"] = {
+    "technique": "static analysis: use-classification of every read of a literal zone's fields (verbatim forms allow-listed), who-may-construct / no-store rule, dispatcher exhaustiveness, control-dependence rules in the fence-aware normaliser and the tab check, shape rules for range lookups and fence detection in the write pre-pass, sibling agreement of the emitter's zone layouts",
+    "text": ("Decides: every read of .content/.info_tag/.fence_marker on an expression known to be a literal zone (37 reads in the tools' scope; whole package in the thorough "
+             "tier) is a verbatim use; no store to those fields and LiteralZoneValue is built only by Parser.parse_literal_zone; every value dispatcher that converts values has "
+             "a zone branch; inside an open fence the normaliser appends the raw line, unicodedata.normalize has no other caller and the tab rejection consults every fence span; "
+             "the octave_write pre-pass uses the lexer's FENCE_PATTERN, closes a zone only on a fence of the opening length and scans all protected ranges; the emitter's three "
+             "zone layouts agree (content appended unchanged exactly when non-empty). One recorded known finding: FormatOptions post-processing is not fence-aware (Python API only)."),
+    "note": ("Byte equality of zone content through a whole pipeline is not decided, nor the collapse of a zone holding exactly one empty line into an empty zone (a value-level "
+             "fact of the token representation). Receiver typing is by isinstance test / annotation / construction inside the same function; reads on untyped receivers named "
+             "content elsewhere in the package are out of scope."),
+}
